@@ -56,6 +56,10 @@ def run(ctx: RuleContext):
     from .c08 import check_leaves_single_source
 
     ctx.reuse("C16.6", check_leaves_single_source, ctx, "C16.6")
+    # C16.8: the per-leaf sizes of `?` axes are bindings like any other: when a structured PyTree check fails at a later leaf, the sizes bound
+    # under the earlier leaves' labels must be gone with the structure name (C04's snapshot / restore clauses at the PyTree check site) --
+    # otherwise the next alternative of a union is judged against `(Leaf 0 in structure T) n = 2` left by the failed one
+    ctx.reuse("C16.8", _pytree_rollback, ctx, r)
 
 
 # ------------------------------------------------------------------------ C16.2
@@ -508,6 +512,16 @@ def check_every_leaf_visited(ctx, r, cg):
                 ctx.ok("C16.6", f.qualname, f"every iteration of the leaves loop passes `{leafvar}` to the leaf check before the next one starts")
     ctx.counters["leaves_loops"] = n_loops
     ctx.floor("C16.6", "leaves_loops", 1)
+
+
+def _pytree_rollback(ctx, r):
+    from . import c04
+
+    sites = [s_ for s_ in c04.find_sites(ctx, r) if s_.fn.module.short == "_pytree_type"]
+    for s_ in sites:
+        c04.check_site(ctx, r, s_)
+    ctx.counters["pytree_rollback_sites"] = len(sites)
+    ctx.floor("C16.8", "pytree_rollback_sites", 1)
 
 
 # ------------------------------------------------------------------------ C16.7
